@@ -116,7 +116,7 @@ def sweep(ck, dialect, cmd, n, glsl_ub_excluded=False, label=""):
         if fid is None:      # a listed finding never hides a later unlisted violation of the same class
             reported.add(key)
         ck.violation({"kind": dialect + "-changes-meaning", "finding": fid, "options": t, "result": r[:2000],
-                      "wgsl": unq(s[1:-1]), "emitted": unq(texts[i][1:-1])[:6000] if i < len(texts) else None,
+                      "wgsl": unq(s[1:-1]), "emitted": unq(texts[i][1:-1])[:30000] if i < len(texts) else None,
                       "shrunk": sh.get("%s %s" % (knob, cls)),
                       "how": "running the emitted %s text (Lean interpreter of the target language, real output of the back end) "
                              "differs from the WGSL reference evaluation, hits target-language undefined behaviour, or is ill-formed"
@@ -220,7 +220,7 @@ def expected_sweep(ck, dialect, cmd, n, args, sub, kind, how, empty_note=None):
             reported.add(key)
         ck.violation({"kind": kind, "finding": fid, "case": t,
                       "got": r[:1500], "expected_outp": e, "wgsl": unq(srcs[i][1:-1]),
-                      "emitted": unq(texts[i][1:-1])[:6000] if i < len(texts) else None, "how": how},
+                      "emitted": unq(texts[i][1:-1])[:30000] if i < len(texts) else None, "how": how},
                      found_input=True)
     ck.extra.setdefault("access_probes", {})[sub] = stat
     st = ck.stats.get(sub, {})
@@ -295,7 +295,7 @@ def flow_sweep(ck, dialect, n, enum_size=None):
         if reported < 3:
             reported += 1
             ck.violation({"kind": dialect + "-control-flow-differs-from-model", "case": t, "result": r[:3000],
-                          "wgsl": unq(srcs[i][1:-1]), "emitted": unq(texts[i][1:-1])[:6000],
+                          "wgsl": unq(srcs[i][1:-1]), "emitted": unq(texts[i][1:-1])[:30000],
                           "how": "the control-flow skeleton of the emitted text is not what the proved emission scheme (Naga.Model.CFlow) "
                                  "produces for this function (or the IR tree violates a hypothesis of the theorem): the statement-level "
                                  "theorem no longer applies to this output; the executed sweeps search for an input on which it matters"},
@@ -325,7 +325,7 @@ def bake_sweep(ck, dialect, n):
         if reported < 3:
             reported += 1
             ck.violation({"kind": dialect + "-load-without-temporary", "row": r, "wgsl": unq(srcs[i][1:-1]),
-                          "emitted": unq(texts[i][1:-1])[:6000],
+                          "emitted": unq(texts[i][1:-1])[:30000],
                           "how": "a Load expression of naga's IR has no temporary of its own in the emitted text: the hypothesis of "
                                  "Naga.Props.Bake.bake_sound (every load is evaluated where the IR emits it) is not met by this output; "
                                  "Bake.unbaked_load_witness shows the order of evaluation can then differ. The executed sweeps (csem) "
